@@ -39,6 +39,9 @@ func Registry(prop, tier string) []UniverseDef {
 			add(func() *Universe { return NewAlphaUniverse(sp, kt) }, "alpha["+kt+"]/"+sp.Name)
 		}
 	}
+	if prop != "C04" {
+		out = append(out, NumericRegistry(tier)...)
+	}
 	if prop == "C01" {
 		add(func() *Universe { return NewAlphaUniverse(NulSpec(), "string") }, "alpha[string]/NUL")
 	}
